@@ -547,3 +547,173 @@ Definition inv_failures (c : cfg) (s : state) : list nat :=
          (seq 0 12).
 
 End PoolM.
+
+(** * The boolean specification evaluated on implementation traces
+
+    The trace of one explored schedule of the real pool (harness/hx-sched: the
+    verbatim pool.rs on a deterministic scheduler) is a list of [ev]; [check]
+    folds a monitor over it that accepts ANY event sequence and returns the
+    list of violated clauses of C06 / C07 (empty = the properties hold on this
+    schedule).  Unlike [PoolM.step] it does not know the protocol: it only
+    knows what the properties say. *)
+
+Module PoolMon.
+
+Inductive ev :=
+| VBcast (n : nat)                  (* harness: par_extend(n) is about to be called *)
+| VNew (v : nat)                    (* TaskShared::new: AtomicUsize::new(v) *)
+| VSpawn (k : nat)                  (* thread k spawned *)
+| VSent (c : nat)                   (* send on channel c returned *)
+| VRecv (t c : nat) (ok : bool)     (* thread t's recv on channel c returned Ok / Err *)
+| VCall (t i : nat) (p : bool)      (* thread t calls the task with index i; p = it panics *)
+| VClone (t : nat) (orig : bool)    (* t clones a thread handle; orig = the one stored in the task block *)
+| VDec (t old : nat)                (* t's fetch_sub returned old *)
+| VUnpark (t : nat) (orig : bool)   (* t unparks through the block's handle / through a clone *)
+| VLoad (v : nat)                   (* the caller's load returned v *)
+| VPark                             (* park returned by token *)
+| VSpur                             (* park returned without token *)
+| VRet (sl : list (option nat))     (* par_extend returned; the result slots *)
+| VDrop                             (* the pool is dropped *)
+| VExit (t : nat)                   (* thread t finished *)
+| VDead (t : nat)                   (* t accessed a dead task block (harness liveness marker) *)
+| VOther.                           (* an event the pool never produces *)
+
+(** Clauses. *)
+Definition F_once := 1.        (* an index executed 0 or 2 times, or on the wrong thread, or a foreign index *)
+Definition F_results := 2.     (* result slots differ from "Some i unless call i panicked" *)
+Definition F_touch := 3.       (* a worker touched the task block after the caller may have resumed *)
+Definition F_exit := 4.        (* a worker did not exit after the pool was dropped *)
+Definition F_spawn := 5.       (* workers after <> max (workers before) n *)
+Definition F_dead := 6.        (* access to a dead task block observed by the harness *)
+Definition F_foreign := 7.     (* event outside the protocol *)
+Definition F_incomplete := 8.  (* not every broadcast returned / pool not dropped (deadlock) *)
+Definition F_wake := 9.        (* the caller returned while the counter was non-zero *)
+
+Record mon := {
+  m_b : nat;                 (* number of the current / latest broadcast *)
+  m_n : nat;                 (* its aux thread count *)
+  m_open : bool;             (* between VBcast and VRet *)
+  m_rc : nat;                (* counter of the current block, as the monitor counts it *)
+  m_zero : bool;             (* a decrement brought it to zero: the caller may resume *)
+  m_serv : list (nat * nat); (* (worker, broadcast whose task it received last) *)
+  m_calls : list (nat * nat * nat);  (* (broadcast, index, thread) *)
+  m_spawned : nat;
+  m_spawned0 : nat;          (* workers when the current broadcast began *)
+  m_exited : list nat;
+  m_dropped : bool;
+  m_rets : nat;              (* broadcasts returned *)
+  m_fail : list nat
+}.
+
+Definition mon0 : mon :=
+  {| m_b := 0; m_n := 0; m_open := false; m_rc := 0; m_zero := false; m_serv := []; m_calls := [];
+     m_spawned := 0; m_spawned0 := 0; m_exited := []; m_dropped := false; m_rets := 0; m_fail := [] |}.
+
+Definition failm (m : mon) (f : nat) : mon :=
+  {| m_b := m_b m; m_n := m_n m; m_open := m_open m; m_rc := m_rc m; m_zero := m_zero m; m_serv := m_serv m;
+     m_calls := m_calls m; m_spawned := m_spawned m; m_spawned0 := m_spawned0 m; m_exited := m_exited m;
+     m_dropped := m_dropped m; m_rets := m_rets m; m_fail := f :: m_fail m |}.
+
+Fixpoint serving (l : list (nat * nat)) (t : nat) : nat :=
+  match l with
+  | [] => 0
+  | (t', b) :: r => if Nat.eqb t t' then b else serving r t
+  end.
+
+(** A worker [t] touches the task block it was handed: legitimate only while
+    that block is the current one, the broadcast has not returned, and the
+    counter has not yet reached zero. *)
+Definition touch (m : mon) (t : nat) : mon :=
+  if m_open m && Nat.eqb (serving (m_serv m) t) (m_b m) && negb (m_zero m) then m else failm m F_touch.
+
+Definition count3 (b i : nat) (l : list (nat * nat * nat)) : nat :=
+  length (filter (fun c => Nat.eqb (fst (fst c)) b && Nat.eqb (snd (fst c)) i) l).
+
+Definition on_thread (b i : nat) (l : list (nat * nat * nat)) : bool :=
+  forallb (fun c => if Nat.eqb (fst (fst c)) b && Nat.eqb (snd (fst c)) i then Nat.eqb (snd c) i else true) l.
+
+Definition once_ok (m : mon) : bool :=
+  forallb (fun i => Nat.eqb (count3 (m_b m) i (m_calls m)) 1 && on_thread (m_b m) i (m_calls m)) (seq 0 (S (m_n m)))
+  && Nat.eqb (length (filter (fun c => Nat.eqb (fst (fst c)) (m_b m)) (m_calls m))) (S (m_n m)).
+
+Definition pan_mem (b i : nat) (pan : list (nat * nat)) : bool :=
+  existsb (fun d => Nat.eqb (fst d) b && Nat.eqb (snd d) i) pan.
+
+Definition expected_results (pan : list (nat * nat)) (b n : nat) : list (option nat) :=
+  map (fun i => if pan_mem b i pan then None else Some i) (seq 0 (S n)).
+
+Definition mstep (pan : list (nat * nat)) (m : mon) (e : ev) : mon :=
+  match e with
+  | VBcast n =>
+      {| m_b := S (m_b m); m_n := n; m_open := true; m_rc := 0; m_zero := false; m_serv := m_serv m;
+         m_calls := m_calls m; m_spawned := m_spawned m; m_spawned0 := m_spawned m; m_exited := m_exited m;
+         m_dropped := m_dropped m; m_rets := m_rets m;
+         m_fail := (if m_open m || m_dropped m then F_foreign :: m_fail m else m_fail m) |}
+  | VNew v =>
+      {| m_b := m_b m; m_n := m_n m; m_open := m_open m; m_rc := v; m_zero := false; m_serv := m_serv m;
+         m_calls := m_calls m; m_spawned := m_spawned m; m_spawned0 := m_spawned0 m; m_exited := m_exited m;
+         m_dropped := m_dropped m; m_rets := m_rets m;
+         m_fail := (if m_open m then m_fail m else F_foreign :: m_fail m) |}
+  | VSpawn k =>
+      {| m_b := m_b m; m_n := m_n m; m_open := m_open m; m_rc := m_rc m; m_zero := m_zero m; m_serv := m_serv m;
+         m_calls := m_calls m; m_spawned := S (m_spawned m); m_spawned0 := m_spawned0 m; m_exited := m_exited m;
+         m_dropped := m_dropped m; m_rets := m_rets m;
+         m_fail := (if Nat.eqb k (S (m_spawned m)) then m_fail m else F_spawn :: m_fail m) |}
+  | VSent _ => m
+  | VRecv t c true =>
+      {| m_b := m_b m; m_n := m_n m; m_open := m_open m; m_rc := m_rc m; m_zero := m_zero m;
+         m_serv := (t, m_b m) :: m_serv m;
+         m_calls := m_calls m; m_spawned := m_spawned m; m_spawned0 := m_spawned0 m; m_exited := m_exited m;
+         m_dropped := m_dropped m; m_rets := m_rets m; m_fail := m_fail m |}
+  | VRecv t c false => if m_dropped m then m else failm m F_foreign
+  | VCall t i p =>
+      let b := if Nat.eqb t 0 then m_b m else serving (m_serv m) t in
+      let m1 := if Nat.eqb t 0 then m else touch m t in
+      {| m_b := m_b m1; m_n := m_n m1; m_open := m_open m1; m_rc := m_rc m1; m_zero := m_zero m1; m_serv := m_serv m1;
+         m_calls := (b, i, t) :: m_calls m1; m_spawned := m_spawned m1; m_spawned0 := m_spawned0 m1;
+         m_exited := m_exited m1; m_dropped := m_dropped m1; m_rets := m_rets m1; m_fail := m_fail m1 |}
+  | VClone t orig => if orig then touch m t else m
+  | VDec t old =>
+      let m1 := touch m t in
+      let r := m_rc m1 - 1 in
+      {| m_b := m_b m1; m_n := m_n m1; m_open := m_open m1; m_rc := r;
+         m_zero := m_zero m1 || Nat.eqb r 0; m_serv := m_serv m1;
+         m_calls := m_calls m1; m_spawned := m_spawned m1; m_spawned0 := m_spawned0 m1;
+         m_exited := m_exited m1; m_dropped := m_dropped m1; m_rets := m_rets m1;
+         m_fail := (if Nat.eqb (m_rc m1) 0 then F_touch :: m_fail m1 else m_fail m1) |}
+  | VUnpark t orig => if orig then touch m t else m
+  | VLoad _ | VPark | VSpur => m
+  | VRet sl =>
+      let f1 := if once_ok m then m_fail m else F_once :: m_fail m in
+      let f2 := if PoolM.slots_eqb sl (expected_results pan (m_b m) (m_n m)) then f1 else F_results :: f1 in
+      let f3 := if Nat.eqb (m_spawned m) (Nat.max (m_spawned0 m) (m_n m)) then f2 else F_spawn :: f2 in
+      let f4 := if Nat.eqb (m_rc m) 0 then f3 else F_wake :: f3 in
+      let f5 := if m_open m then f4 else F_foreign :: f4 in
+      {| m_b := m_b m; m_n := m_n m; m_open := false; m_rc := m_rc m; m_zero := m_zero m; m_serv := m_serv m;
+         m_calls := m_calls m; m_spawned := m_spawned m; m_spawned0 := m_spawned0 m; m_exited := m_exited m;
+         m_dropped := m_dropped m; m_rets := S (m_rets m); m_fail := f5 |}
+  | VDrop =>
+      {| m_b := m_b m; m_n := m_n m; m_open := m_open m; m_rc := m_rc m; m_zero := m_zero m; m_serv := m_serv m;
+         m_calls := m_calls m; m_spawned := m_spawned m; m_spawned0 := m_spawned0 m; m_exited := m_exited m;
+         m_dropped := true; m_rets := m_rets m;
+         m_fail := (if m_open m then F_foreign :: m_fail m else m_fail m) |}
+  | VExit t =>
+      {| m_b := m_b m; m_n := m_n m; m_open := m_open m; m_rc := m_rc m; m_zero := m_zero m; m_serv := m_serv m;
+         m_calls := m_calls m; m_spawned := m_spawned m; m_spawned0 := m_spawned0 m; m_exited := t :: m_exited m;
+         m_dropped := m_dropped m; m_rets := m_rets m;
+         m_fail := (if m_dropped m then m_fail m else F_exit :: m_fail m) |}
+  | VDead _ => failm m F_dead
+  | VOther => failm m F_foreign
+  end.
+
+Definition mem_nat (x : nat) (l : list nat) : bool := existsb (Nat.eqb x) l.
+
+(** All clauses violated by a trace (empty = none). *)
+Definition check (scr : list nat) (pan : list (nat * nat)) (evs : list ev) : list nat :=
+  let m := fold_left (mstep pan) evs mon0 in
+  let f1 := if Nat.eqb (m_rets m) (length scr) && m_dropped m && negb (m_open m) then m_fail m
+            else F_incomplete :: m_fail m in
+  if m_dropped m && negb (forallb (fun k => mem_nat k (m_exited m)) (seq 1 (m_spawned m)))
+  then F_exit :: f1 else f1.
+
+End PoolMon.
